@@ -12,12 +12,16 @@ import Bng.Drv.Dhcp4
 import Bng.Drv.Dhcp6
 import Bng.Drv.Bitmap
 import Bng.Drv.PppoeServer
+import Bng.Drv.PppAuth
 import Bng.Drv.Teardown
+import Bng.Drv.DhcpTerm
 import Bng.Drv.SubMgr
 import Bng.Drv.FreeList
 import Bng.Drv.Nexus
+import Bng.Drv.PeerCluster
 import Bng.Drv.Epoch
 import Bng.Drv.Dist
+import Bng.Drv.PoolAlloc
 import Bng.Drv.Nat
 import Bng.Drv.Nat44
 import Bng.Drv.Vlan
@@ -46,7 +50,9 @@ def components : List (String × Component) := [
   ("dhcp6", Dhcp6Drv.component),
   ("bitmap", BitmapDrv.component),
   ("pppoesrv", PppoeServerDrv.component),
+  ("pppauth", PppAuthDrv.component),
   ("teardown", TeardownDrv.component),
+  ("dhcpterm", DhcpTermDrv.component),
   ("submgr", SubMgrDrv.component),
   ("dhcppool", FreeListDrv.component .dhcp),
   ("v6addr", FreeListDrv.component .v6addr),
@@ -54,11 +60,14 @@ def components : List (String × Component) := [
   ("pppoepool", FreeListDrv.component .pppoe),
   ("localpool", FreeListDrv.component .localp),
   ("nexushash", NexusDrv.component),
+  ("nexusclient", NexusClientDrv.component),
+  ("peercluster", PeerClusterDrv.component),
   ("nat", NatDrv.component),
   ("rendezvous", RendezvousDrv.component),
   ("nat44", Nat44Drv.component),
   ("epoch", EpochDrv.component),
   ("dist", DistDrv.component),
+  ("poolalloc", PoolAllocDrv.component),
   ("vlan", VlanDrv.component),
   ("qinq", QinqDrv.component),
   ("pppsess", PppSessDrv.component),
